@@ -79,6 +79,16 @@ class WalkPolicy:
         return order[k % len(order)]
 
 
+def policy_quiet(policy):
+    """True when the policy will never again switch away from a running
+    thread that stays enabled (so the current thread runs until it parks)."""
+    if isinstance(policy, WalkPolicy):
+        return all(k == 0 for k in policy.choices[policy.i:])
+    if isinstance(policy, PreemptPolicy):
+        return all(i < policy.i for i in policy.preempts)
+    return False
+
+
 class PCTPolicy:
     """PCT-style: every thread has a priority (by spawn order, from a drawn
     list); the highest-priority enabled thread always runs; at each drawn
